@@ -25,6 +25,12 @@ NOTES = {
     "C09a": "found after 28 min: the half-turn case is a division-by-zero (poison) path and angles beyond pi near it; every other "
             "obligation first runs into its time-out",
     "C04d": "first examined with no verdict within 60 min; reported in 10 s since the wiring cases with Umeyama replaced by its contract were added (DESIGN 11.3)",
+    "C05c": "first run: exit 3 (the solver's witness sits exactly on max_diff and the replay oracle had a don't-care band there); reported since the "
+            "oracle decides boundary cases exactly when the witness's float arithmetic is exact",
+    "C06c": "first run: exit 0 (not seen: no case read a path twice); reported since the write / read / rewrite / read cases on one path were added",
+    "C06d": "not seen: pandas runs for real on object cells, so a branch on the index dtype / on index values inside pandas is never taken symbolically (DESIGN 11.3)",
+    "C07c": "first run: exit 2 (numpy.fromiter not modelled), then exit 0 (no case had compensating defects in two rows); reported since both were added",
+    "C14c": "C14 itself is inconclusive on this change (Euler-angle code on a symbolic quaternion: not encodable); the stale matrix view is reported by C08",
     "C10a": "the solver finds a counterexample sitting exactly on a threshold; it does not reproduce in binary64: exit 3, no VIOLATION line",
 }
 
